@@ -30,6 +30,8 @@ QUICK = [
     (1, 2, 1, 30000, ["drain", "join", "stop"], dict(s1=S("try:1", "try:2"), s2=S("fut:3"))),
     (1, 3, 2, 50, ["idle", "count", "join"], dict(s1=S("try:1:p", "try:2", "try:3"), s2=S("try:4", "count"))),
     (2, 2, 1, 30000, ["join", "stop"], dict(s1=S("enq:1", "enq:2", "enq:3"))),
+    # stop -> reset -> start on a pool whose initial size is its maximum, a submission at any moment of the cycle
+    (2, 2, 2, 30000, ["stop", "restart", "join"], dict(s1=S("try:1", "fut:2"))),
 ]
 THOROUGH = QUICK + [
     (1, 2, 2, 30000, ["stop"], dict(s1=S("try:1"), s2=S("try:2"), s3=S("try:3", "count"))),
@@ -51,15 +53,17 @@ def gen_mc(ck, idx, case, reserves=True):
     d = os.path.join(ck.work, "mc%d%s" % (idx, "" if reserves is True else str(reserves)))
     os.makedirs(d, exist_ok=True)
     tprog = {s: [vf.Rec(api=o, id=i, kind=(k if k in "nts" else "n")) for o, i, k in ops if o != "count"] for s, ops in subs.items()}
-    mlife = [x for x in life if x in ("join", "drain", "stop")]
+    mlife = [x for x in life if x in ("join", "drain", "stop", "restart")]
     with open(os.path.join(d, "MCPool.tla"), "w") as f:
         f.write("---- MODULE MCPool ----\nEXTENDS ThreadPool\n")
         f.write("MCSubs == %s\nMCProg == %s\nMCLife == %s\n====\n" % (vf.tla(set(subs)), vf.tla(tprog), vf.tla(mlife)))
     cfg = os.path.join(d, "MCPool.cfg")
     ntasks = sum(len(v) for v in tprog.values())
     vf.write_cfg(cfg, constants={"Init0": init, "MaxT": maxt, "QCap": cap, "Subs": "<- MCSubs", "Prog": "<- MCProg",
-                                 "Life": "<- MCLife", "MaxW": init + ntasks + 1, "SpawnReserves": reserves is not False,
-                                 "DtorJoinsAfterStop": reserves != "nodtorjoin", "RecheckShutdown": reserves != "norecheck"},
+                                 "Life": "<- MCLife", "MaxW": init + ntasks + 1 + init * sum(1 for x in life if x == "restart"),
+                                 "SpawnReserves": reserves is not False,
+                                 "DtorJoinsAfterStop": reserves != "nodtorjoin", "RecheckShutdown": reserves != "norecheck",
+                                 "RestartSpawnsFirst": reserves == "restartspawnsfirst", "RestartReserves": reserves != "norestartreserve"},
                  invariants=INVS)
     return os.path.join(d, "MCPool.tla"), cfg
 
@@ -77,7 +81,8 @@ def run(ck):
         tla_path, cfg = gen_mc(ck, idx, case, reserves)
         return job, vf.run_tlc(tla_path, cfg, tag="C09_mc%d%s" % (idx, reserves), workers=3, lib_dirs=[SPECDIR], coverage=(reserves is True),
                                timeout=1200)
-    jobs = [(i, c, True) for i, c in enumerate(cases)] + [(0, cases[0], False), (1, cases[1], "nodtorjoin"), (1, cases[1], "norecheck")]
+    jobs = [(i, c, True) for i, c in enumerate(cases)] + [(0, cases[0], False), (1, cases[1], "nodtorjoin"), (1, cases[1], "norecheck"),
+                                                          (5, cases[5], "restartspawnsfirst"), (5, cases[5], "norestartreserve")]
     with cf.ThreadPoolExecutor(max_workers=5) as ex:
         results = list(ex.map(mc, jobs))
     for (idx, case, reserves), r in results:
@@ -93,6 +98,14 @@ def run(ck):
             if r.violated != "NoJoinableLeft":
                 raise vf.Infra("self-test: ThreadPool.tla with DtorJoinsAfterStop=FALSE should violate NoJoinableLeft, got %r" % r.violated)
             continue
+        if reserves == "norestartreserve":
+            if r.violated != "ThreadCap":
+                raise vf.Infra("self-test: ThreadPool.tla with RestartReserves=FALSE should violate ThreadCap, got %r" % r.violated)
+            continue
+        if reserves == "restartspawnsfirst":
+            if r.violated not in ("NoStuck", "StopComplete"):
+                raise vf.Infra("self-test: ThreadPool.tla with RestartSpawnsFirst=TRUE should violate NoStuck, got %r" % r.violated)
+            continue
         if reserves == "norecheck":
             if r.violated not in ("StopComplete", "NoJoinableLeft", "NoStuck"):
                 raise vf.Infra("self-test: ThreadPool.tla with RecheckShutdown=FALSE should violate StopComplete, got %r" % r.violated)
@@ -105,7 +118,8 @@ def run(ck):
             ck.classify({"spec": "ThreadPool", "invariant": r.violated}, "ThreadPool.tla violates %s for program %s" % (
                 r.violated, prog_text(case[4], case[5])), rp)
     for a in ["SChk", "SCrit", "SSpawn", "WTake", "WStart", "WFinish", "WExitShutdown", "WIdleExit", "MJoinSubs",
-              "MDrainBegin", "MDrainPoll", "MSdSet", "MSdPoll", "MJoin", "MDestroy"]:
+              "MDrainBegin", "MDrainPoll", "MSdSet", "MSdPoll", "MJoin", "MDestroy", "MRestartBegin", "MRestartClear", "MRestartOpen",
+              "MRestartSpawn"]:
         if ck.cov.get(a, 0) == 0:
             raise vf.Infra("self-test: Impl action %s never taken" % a)
     # ---- real pool: random schedules
@@ -133,7 +147,7 @@ def run(ck):
     # life-cycle cycles and long tasks (real pool only, judged by PoolTrace.tla): stop -> reset -> start with a submission after the
     # restart on a pool whose initial size is its maximum (a worker lost during start() cannot be replaced); tasks that outlast
     # stop()'s bounded polling while a worker is being added (stop() must still wait for them)
-    EXTRA = ["2 2 2 30000 | main=restart,join ; s1=sleep:200,fut:1:n,try:2:n",
+    EXTRA = ["2 2 2 30000 | main=restart,count,join,count ; s1=sleep:200,fut:1:n,count,try:2:n,count",
              "1 1 2 30000 | main=restart,restart,join ; s1=sleep:400,fut:1:n",
              "1 2 2 30000 | main=stop,join ; s1=try:1:l,try:2:l",
              "1 2 2 30000 | main=join,stop ; s1=try:1:l,fut:2:l ; s2=try:3:n"]
